@@ -15,6 +15,12 @@
  * Error Handling
  * ======================================================================== */
 
+#ifdef NANOLANG_VERIF
+/* Verification hook H1: remaining instruction budget; negative = unlimited.
+ * Set directly by in-process probes, or from NANOLANG_VERIF_FUEL in vm_init(). */
+long long nanolang_verif_fuel = -1;
+#endif
+
 static VmResult vm_error(VmState *vm, VmResult err, const char *fmt, ...) {
     vm->last_error = err;
     va_list args;
@@ -49,6 +55,12 @@ const char *vm_error_string(VmResult result) {
  * ======================================================================== */
 
 void vm_init(VmState *vm, const NvmModule *module) {
+#ifdef NANOLANG_VERIF
+    {
+        const char *verif_fuel = getenv("NANOLANG_VERIF_FUEL");
+        if (verif_fuel) nanolang_verif_fuel = atoll(verif_fuel);
+    }
+#endif
     memset(vm, 0, sizeof(*vm));
     vm->module = module;
     vm->stack_capacity = VM_STACK_INITIAL;
@@ -178,6 +190,16 @@ VmTrap vm_core_execute(VmState *vm) {
 
     /* Main dispatch loop */
     while (vm->ip < code_end) {
+#ifdef NANOLANG_VERIF
+        /* Verification hook H1: optional instruction budget so that hostile
+         * loops end deterministically (see /verif/DESIGN.md section 4). */
+        if (nanolang_verif_fuel >= 0) {
+            if (nanolang_verif_fuel == 0) {
+                return trap_error(vm, VM_ERR_NOT_IMPLEMENTED, "verif: instruction budget exhausted");
+            }
+            nanolang_verif_fuel--;
+        }
+#endif
         DecodedInstruction instr;
         uint32_t consumed = isa_decode(code + vm->ip, code_end - vm->ip, &instr);
         if (consumed == 0) {
